@@ -289,7 +289,10 @@ def DBState.startExecuting (d : DBState) (me : Participant) (now : Int) : R := d
 
 def DBState.executing (d : DBState) (me : Participant) (sender : String) (now : Int) : R := do
   if hasTimedOut d now then throw .timeoutReached
-  if contains d.leaving me && Gen.isValidStateChange d.state .left then d.left me now
+  if contains d.leaving me && Gen.isValidStateChange d.state .left then
+    -- only the leader's execute packet may send a leaver off
+    if sender != (d.leader.map (·.addr)).getD "" then throw .onlyLeaderCanTriggerExecute
+    d.left me now
   else
     validChange d.state .executing
     if !(contains d.remaining me) && !(contains d.joining me) then throw .cannotExecuteIfNotJoinerOrRemainer
